@@ -218,10 +218,10 @@ FUN = [F + "traversal.closed_paths", F + "traversal.vertex_to_entity_path", F + 
 def units(tier):
     T = tier == "thorough"
     return [
-        Unit("loops-symbolic", u_loops, params={} if T else {"maxA": 3, "maxB": 1, "rotations": 2}, key="loops", functions=FUN,
-             bounds="rectangle (symbolic size / offset) + nested triangle + quadrilateral; every cut pattern with <= %s entities, every direction assignment, %s of the entity list" % (("4 + 2", "every rotation / reversal") if T else ("3 + 1", "two rotations / reversal")),
-             max_paths=6000 if T else 800, wall_s=3000 if T else 400),
-        Unit("regions-catalogue", u_regions, params={} if T else {"maxA": 2, "maxB": 1, "rotations": 2}, key="regions", functions=FUN, opts={"no_proxy": True},
-             bounds="same curves on catalogue coordinates: every configuration (cut patterns as above) x 9 similarity transforms x reads before/after; shapely values", max_paths=60000 if T else 3000, wall_s=3000 if T else 300),
+        Unit("loops-symbolic", u_loops, params={"maxA": 4, "maxB": 1, "rotations": 3} if T else {"maxA": 3, "maxB": 1, "rotations": 2}, key="loops", functions=FUN,
+             bounds="rectangle (symbolic size / offset) + nested triangle + quadrilateral; every cut pattern with <= %s entities, every direction assignment, %s of the entity list" % (("4 + 1", "three rotations / reversal") if T else ("3 + 1", "two rotations / reversal")),
+             max_paths=6000 if T else 800, wall_s=1400 if T else 400),
+        Unit("regions-catalogue", u_regions, params={"maxA": 3, "maxB": 1, "rotations": 3} if T else {"maxA": 2, "maxB": 1, "rotations": 2}, key="regions", functions=FUN, opts={"no_proxy": True},
+             bounds="same curves on catalogue coordinates: every configuration (cut patterns as above) x 9 similarity transforms x reads before/after; shapely values", max_paths=60000 if T else 3000, wall_s=1400 if T else 300),
     ]
     # arc_center (Heron's formula: nested square roots in the branch conditions) comes back `unknown` from z3 and is not registered
